@@ -116,6 +116,17 @@ func (p *Plenc) CodecForTypeRegistry(registry plenccodec.CodecRegistry, typ refl
 		c = plenccodec.PointerWrapper{Underlying: subc}
 
 	case reflect.Struct:
+		if tag != "" {
+			if rc := registry.Load(typ, ""); rc != nil {
+				if _, built := rc.(*plenccodec.StructCodec); !built {
+					// The type has its own registered codec (e.g. time.Time)
+					// but not for this tag. Building a codec from its fields
+					// instead would silently encode something else (nothing
+					// at all for time.Time)
+					return nil, fmt.Errorf("no codec available for %s with tag %q", typ.Name(), tag)
+				}
+			}
+		}
 		c, err = plenccodec.BuildStructCodec(p, registry, typ, tag)
 		if err != nil {
 			return nil, err
